@@ -633,6 +633,8 @@ func casterC08(c *Ctx) {
 			}
 			q.add("LIN", "exactly |delta| values are absorbed", okt, pickS(okt, "the loop is bounded by -delta", "the absorbing loop is not bounded by the number of departing receivers"), rv)
 		}
+		// C08.5 / C08.6: the exact conditions under which Add returns normally
+		casterAddConds(c, q, adds)
 		// every return is guarded; everything else panics
 		rets := returnsOf(q.fn)
 		nGuard := 0
@@ -897,3 +899,150 @@ func pubsubC06WhoSends(c *Ctx) {
 	}
 	c.C.Add("WR", "(*ChanCaster).Send", "only ChanCaster.Send sends on the caster's channel", bad == 0 && n == 1, "one send site")
 }
+
+// hiLoOf finds, for a 64-bit state value, the uint32 conversions of its high and low words.
+func hiLoOf(fn *ssa.Function, state ssa.Value) (hi, lo ssa.Value) {
+	for _, in := range an.AllInstrs(fn, func(in ssa.Instruction) bool { _, ok := in.(*ssa.Convert); return ok }) {
+		cv := in.(*ssa.Convert)
+		if cv.Type().String() != "uint32" {
+			continue
+		}
+		if cv.X == state {
+			lo = cv
+		}
+		if sh, ok := cv.X.(*ssa.BinOp); ok && sh.Op == token.SHR && sh.X == state {
+			if k, isK := constInt(sh.Y); isK && k == 32 {
+				hi = cv
+			}
+		}
+	}
+	return
+}
+
+func casterAddConds(c *Ctx, q *fq, adds []ssa.Instruction) {
+	P := c.P
+	const max = 2147483647
+	if len(adds) != 2 {
+		return
+	}
+	delta := aP(q.param(1))
+	for _, a := range adds {
+		call := a.(*ssa.Call)
+		// which branch? the positive one joins with the delta == 0 load through a phi
+		var state ssa.Value = call
+		positive := false
+		for _, r := range *call.Referrers() {
+			if ph, ok := r.(*ssa.Phi); ok {
+				state, positive = ph, true
+			}
+		}
+		hi, lo := hiLoOf(q.fn, state)
+		if hi == nil || lo == nil {
+			q.undecided("COND", "validation of the resulting state", "the hi/lo words of the state after the atomic add are not extracted as uint32(state>>32) / uint32(state)", a)
+			continue
+		}
+		H, L := P.Lin(hi), P.Lin(lo)
+		if positive {
+			// the uint32(delta) used in the comparison
+			var du ssa.Value
+			for _, in := range an.AllInstrs(q.fn, func(in ssa.Instruction) bool { _, ok := in.(*ssa.Convert); return ok }) {
+				cv := in.(*ssa.Convert)
+				if cv.Type().String() == "uint32" && cv.X == ssa.Value(q.fn.Params[1]) && cv.Block() != a.Block() {
+					du = cv
+				}
+			}
+			if du == nil {
+				q.undecided("COND", "positive Add returns iff the state is consistent", "uint32(delta) comparison not found", a)
+				continue
+			}
+			D := P.Lin(du)
+			A := lit(H.AddC(-max), an.SNeg|an.SZero)
+			B := lit(H.Minus(D), an.SPos|an.SZero)
+			C := lit(H.Minus(L), an.SZero)
+			Z := lit(delta, an.SZero)
+			E := lit(H.AddC(max).Minus(L), an.SZero)
+			want := an.DNF{conj(A, B, C), conj(A, B, Z, E)}
+			n := 0
+			for _, r := range returnsOf(q.fn) {
+				if !P.PathExists(q.fn, state.(ssa.Instruction), an.Is(r), nil, nil) {
+					continue
+				}
+				n++
+				got := P.PathCond(q.fn, state.(ssa.Instruction).Block(), r, keepForms(H.AddC(-max), H.Minus(D), H.Minus(L), delta, H.AddC(max).Minus(L)))
+				ok, cex := an.EquivDNF(got, want)
+				q.add("COND", "a non-negative Add returns iff hi <= Max, hi >= delta and (hi == lo, or delta == 0 and hi+Max == lo)", ok,
+					pickS(ok, "return reached iff that condition (everything else panics)", "the validation after a non-negative Add changed: it returns iff ["+got.String()+"]; differs for "+cex), r)
+			}
+			if n == 0 {
+				q.undecided("COND", "a non-negative Add returns iff the state is consistent", "no return follows the positive atomic add", a)
+			}
+			continue
+		}
+		// negative: delta' = -delta
+		var dn ssa.Value
+		for _, in := range an.AllInstrs(q.fn, func(in ssa.Instruction) bool { _, ok := in.(*ssa.Convert); return ok }) {
+			cv := in.(*ssa.Convert)
+			if cv.Type().String() == "uint32" && cv.Block() != a.Block() && P.Lin(cv.X).Equal(delta.Neg()) {
+				dn = cv
+			}
+		}
+		if dn == nil {
+			q.undecided("COND", "negative Add validates the remaining receivers", "uint32(-delta) comparison not found", a)
+			continue
+		}
+		D := P.Lin(dn)
+		// Max - hi >= delta'   <=>   hi + delta' - Max <= 0   (same linear form up to sign; MkLit normalises)
+		A := lit(H.AddC(-max), an.SNeg|an.SZero)
+		B := lit(linConstMinus(max, H).Minus(D), an.SPos|an.SZero)
+		C := lit(L.Minus(H), an.SZero)
+		E := lit(L.Minus(H.AddC(max)), an.SZero)
+		keep := keepForms(H.AddC(-max), linConstMinus(max, H).Minus(D), L.Minus(H), L.Minus(H.AddC(max)))
+		// plain return: iff A, B, lo == hi ; absorbing receive: iff A, B, lo != hi, lo == Max + hi
+		recvs := an.AllInstrs(q.fn, func(in ssa.Instruction) bool {
+			u, ok := in.(*ssa.UnOp)
+			return ok && u.Op == token.ARROW
+		})
+		for _, r := range returnsOf(q.fn) {
+			if !P.PathExists(q.fn, a, an.Is(r), nil, nil) {
+				continue
+			}
+			viaRecv := len(recvs) > 0 && P.PathExists(q.fn, recvs[0], an.Is(r), nil, nil)
+			got := P.PathCond(q.fn, a.Block(), r, keep)
+			var want an.DNF
+			if viaRecv {
+				want = an.DNF{conj(A, B, E)}
+				// the return after the loop is also reached with zero iterations: same condition
+				ok, cex := an.EquivDNF(got, an.DNF{conj(A, B, lit(L.Minus(H), an.SNeg|an.SPos), E)})
+				ok2, _ := an.EquivDNF(got, want)
+				q.add("COND", "a negative Add absorbs and returns iff remaining hi <= Max, Max-hi >= |delta| and lo == Max + hi", ok || ok2,
+					pickS(ok || ok2, "reached iff that condition", "the send-in-flight branch of a negative Add is taken iff ["+got.String()+"]; differs for "+cex), r)
+			} else {
+				want = an.DNF{conj(A, B, C)}
+				ok, cex := an.EquivDNF(got, want)
+				q.add("COND", "a negative Add returns at once iff remaining hi <= Max, Max-hi >= |delta| and lo == hi", ok,
+					pickS(ok, "reached iff that condition", "the no-send branch of a negative Add is taken iff ["+got.String()+"]; differs for "+cex), r)
+			}
+		}
+		// two's complement subtraction of the packed delta: argument is ^(packed - 1) with the same packing as the positive add
+		arg := callArg(a, 1)
+		okc := false
+		if u, ok := arg.(*ssa.UnOp); ok && u.Op == token.XOR {
+			if sb, ok := u.X.(*ssa.BinOp); ok && sb.Op == token.SUB {
+				if k, isK := constInt(sb.Y); isK && k == 1 {
+					pos := ""
+					for _, o := range adds {
+						if o != a {
+							pos = P.Lin(callArg(o, 1)).String()
+						}
+					}
+					neg := strings.ReplaceAll(P.Lin(sb.X).String(), "-P("+q.param(1)+")", "+P("+q.param(1)+")")
+					okc = pos != "" && neg == pos
+				}
+			}
+		}
+		q.add("LIN", "a negative Add subtracts exactly the packed |delta| from both words (two's complement)", okc,
+			pickS(okc, "argument is ^(pack(-delta) - 1) with the same packing as the positive add", "the value added for a negative delta is not ^(pack(|delta|) - 1): the two words would not both decrease by |delta|"), a)
+	}
+}
+
+func linConstMinus(c int64, l an.Lin) an.Lin { return l.Neg().AddC(c) }
